@@ -123,4 +123,26 @@ def tick (cfg : TickCfg) (now : Nat) (known : List KnownPeer) (connected : List 
   let chosen := el.take n
   ({ st1 with pending := st1.pending ++ chosen.map (·.id) }, chosen.map fun k => (k.id, addrIndex st1 k))
 
+/-! ### the connectivity check as the SOURCE spells it (translator item `tick`) -/
+
+def evalEligClause (cfg : TickCfg) (now : Nat) (connected : List Nat) (st : TickState) (k : KnownPeer) : EligClause → Bool
+  | .isHigh => k.aff == .high
+  | .notSelf => k.id != cfg.own
+  | .hasAddress => decide (0 < k.naddr)
+  | .notConnected => !decide (k.id ∈ connected)
+  | .noPendingDial => !decide (k.id ∈ st.pending)
+  | .pastBackoffStrict => (match lookupBackoff st.backoffs k.id with | some b => decide (b.until_ < now) | none => true)
+  | .pastBackoffLax => (match lookupBackoff st.backoffs k.id with | some b => decide (b.until_ ≤ now) | none => true)
+
+/-- the conjunction of the clauses the translator read off the `.filter(...)` of `handle_connectivity_check` -/
+def eligibleGen (cfg : TickCfg) (now : Nat) (connected : List Nat) (st : TickState) (k : KnownPeer) : Bool :=
+  Gen.eligibleClausesGen.all (evalEligClause cfg now connected st k)
+
+/-- the dial budget as translated: the cap minus the size of the set the source subtracts -/
+def budgetGen (cap pendingConns pendingDials : Nat) : Nat :=
+  match Gen.budgetMinusGen with
+  | .pendingConnections => cap - pendingConns
+  | .pendingDials => cap - pendingDials
+
+
 end Anemo
